@@ -362,12 +362,32 @@ def statements_with_decorators(text):
     return stmts
 
 
-def module_graph_full(repo=None):
-    """module -> ordered items ('u', module) | ('d', [names], [free identifiers])"""
+def module_graph_full(repo=None, binary=None):
+    """module -> ordered items ('u', module) | ('d', [names], [free identifiers]).
+    With `binary` (the harness) the items come from the REAL parser: hook numbat::verif::session::module_items
+    applied to the text the BuiltinModuleImporter serves — exact binding structure (parameters, where-locals,
+    type parameters, struct fields), free identifiers tagged v: (expression position) / t: (type position).
+    Without it, the textual approximation of phase 2 (kept as a cross-check of names and uses)."""
     root = os.path.join(repo or common.REPO, "numbat", "modules")
     g = {}
-    for m in S.stdlib_modules(repo):
-        g[m] = parse_module_full(open(os.path.join(root, *m.split("::")) + ".nbt", encoding="utf-8").read())
+    mods = S.stdlib_modules(repo)
+    if binary is None:
+        for m in mods:
+            g[m] = parse_module_full(open(os.path.join(root, *m.split("::")) + ".nbt", encoding="utf-8").read())
+        return g
+    outs = S.run_sessions(binary, [[("G", m)] for m in mods])
+    for m, o in zip(mods, outs):
+        txt = o[0] if o else "MISSING"
+        if txt in ("ERR", "PANIC", "NOMODULE", "MISSING") or txt.startswith("@@"):
+            raise common.Broken("module graph hook: module %s: %s" % (m, txt[:100]))
+        items = []
+        for line in txt.split("\n"):
+            if line.startswith("u:"):
+                items.append(("u", line[2:]))
+            elif line.startswith("d:"):
+                names, _, free = line[2:].partition("~")
+                items.append(("d", [x for x in names.split(",") if x], [x for x in free.split(",") if x]))
+        g[m] = items
     return g
 
 
@@ -421,13 +441,17 @@ def resolution_alternatives(full, repo=None):
 
     def alts(w):
         a = []
-        if w in allv:
+        ns = None
+        if w[:2] in ("v:", "t:"):            # exact free identifiers from the parser hook carry their namespace
+            ns, w = w[0], w[2:]
+        if w in allv and ns in (None, "v"):
             a.append("v:" + w)
-        if w in allt:
+        if w in allt and ns in (None, "t"):
             a.append("t:" + w)
-        for p in PREFIXES:
-            if w.startswith(p) and w[len(p):] in units and "v:" + w[len(p):] not in a:
-                a.append("v:" + w[len(p):])
+        if ns in (None, "v"):
+            for p in PREFIXES:
+                if w.startswith(p) and w[len(p):] in units and "v:" + w[len(p):] not in a:
+                    a.append("v:" + w[len(p):])
         return a or ["?:" + w]
     return alts
 
@@ -525,9 +549,13 @@ def translator_names(g, imp):
 
 def run(chk):
     binary, _ = common.build_harness()
-    full = module_graph_full()
-    g = module_graph(full=full)
+    full = module_graph_full(binary=binary)          # exact binding structure from the real parser
+    g = module_graph(full=full)                      # + self-check against the line-based parser (names, uses)
     write_graph(g, full)
+    approx = module_graph_full()                     # the textual extraction of phase 2, for comparison only
+    n_exact = sum(len(i[2]) for its in full.values() for i in its if i[0] == "d")
+    n_approx = sum(len(i[2]) for its in approx.values() for i in its if i[0] == "d")
+    chk.notes.append("free identifiers: %d from the parser hook (exact), %d from the textual approximation" % (n_exact, n_approx))
     proved = chk.prove("Props.C17", THEOREMS, ["theories/Props/C17.vo"])
     if not proved:
         chk.notes.append("proof side: " + str(getattr(chk, "proof_failure", "?"))[:1500])
@@ -649,7 +677,7 @@ def run(chk):
 
     bad_model = common.coq_mismatches(["Session.ImportExec", "Gen.ModuleGraph"],
                                       [(t, s) for _, t, s in items], "c17",
-                                      shard_size=max(8, -(-len(items) // common.NPROC)))
+                                      shard_size=min(150, max(8, -(-len(items) // common.NPROC))), timeout=2400)
 
     found = 0
     for ci, text in problems[:3]:
